@@ -40,6 +40,27 @@ def io_events(events):
     return [e for e in events if e.get("t") == "io"]
 
 
+def log_digest(events):
+    """Digest of everything observable in a lifetime's log: responses, I/O events (with payload sizes and
+    captured data), gate arrivals/releases, crash and end records. Real-time quantities are not logged."""
+    h = hashlib.sha256()
+    for e in events:
+        t = e.get("t")
+        if t == "io":
+            h.update(f'io {e["k"]} {e["op"]} {e["path"]} {e.get("n","")} {e.get("to","")} {e.get("data","")} {e.get("hex","")} {e.get("fault","")}\n'.encode())
+        elif t == "resp":
+            h.update(f'resp {e["step"]} {e.get("stage")} {e.get("body")}\n'.encode())
+        elif t in ("gate", "release"):
+            h.update(f'{t} {e.get("name")} {e.get("key")} {e.get("rule")} {e.get("parked")}\n'.encode())
+        elif t in ("crash", "stuck", "advanced", "issue", "ready"):
+            h.update(f'{t} {e.get("step")} {e.get("k")} {e.get("io")} {e.get("how")} {e.get("wall_ms")}\n'.encode())
+        elif t == "fs":
+            h.update(json.dumps(e.get("files"), sort_keys=True).encode())
+        elif t == "end":
+            h.update(f'end {e.get("how")} {e.get("io")} {e.get("sim_ms")}\n'.encode())
+    return h.hexdigest()[:20]
+
+
 def execute(job):
     """Pool worker: run a plan, walk it, return a compact result."""
     plan, opts = job
@@ -85,6 +106,7 @@ def execute(job):
                 "\n".join(f'{e["op"]} {e["path"]} {e.get("n","")}' for e in ios).encode()).hexdigest()[:16]
             summary["gate_hash"] = hashlib.sha256(
                 "\n".join(f'{e.get("t")} {e.get("name")} {e.get("key")}' for e in ev if e.get("t") in ("gate", "release")).encode()).hexdigest()[:16]
+            summary["log_hash"] = log_digest(ev)
             out["io"].append(summary)
         if hooks:
             for hk in hooks:
